@@ -477,7 +477,7 @@ public:
     }
     PPL_DIRTY_TEMP(Boundary, u);
     Result result = sub_2exp_assign_r(u, upper(), w, ROUND_UP);
-    if (result_overflow(result) == 0 && u > lower()) {
+    if (result_overflow(result) == 0 && u >= lower()) {
       return assign(refinement);
     }
     info().clear();
